@@ -202,6 +202,10 @@ pub fn gen_cfg(prop: &str, seed: u64) -> RunCfg {
             base_cfg(prop, "contract", seed, &mut g, vec![spec], ops)
         }
         "C10" => {
+            // names ending in "_wo" are NOT drawn: the marker of 'a' is '.whiteout/a_wo', which is
+            // also where the markers of the children of a directory named 'a_wo' live - the
+            // properties reserve such names for that reason (tried, and it alarms on the unchanged
+            // tree by construction)
             let pp = phys_pct_for(&mut g.rng);
             let spec = overlay_stack(&mut g, pp, 2, 4);
             let mut world = World { m: vec![spec.view()], w: Default::default() };
@@ -363,7 +367,20 @@ pub fn gen_cfg(prop: &str, seed: u64) -> RunCfg {
                     ops.push(Op::SetTime(P::new(&t), f, g.rng.range(0, 2_000_000_000) as i64, g.rng.below(1_000_000_000) as u32));
                 }
             }
-            base_cfg(prop, "record", seed, &mut g, vec![spec], ops)
+            let nn = spec.node_count();
+            let mut cfg = base_cfg(prop, "record", seed, &mut g, vec![spec], ops);
+            if g.rng.pct(40) && !cfg.ops.is_empty() {
+                // failing calls alike: an underlying call of one operation fails
+                let kinds = ["Other", "PermissionDenied", "StorageFull"];
+                cfg.fault = Some(FaultPlan {
+                    op_index: g.rng.below(cfg.ops.len()),
+                    k: g.rng.range(1, 25) as u64,
+                    sticky: g.rng.pct(30),
+                    kind: kinds[g.rng.below(kinds.len())].into(),
+                    nodes: if g.rng.pct(60) { u64::MAX } else { 1u64 << g.rng.below(nn) },
+                });
+            }
+            cfg
         }
         "C04" => {
             g.size_profile = 2;
@@ -657,7 +674,9 @@ pub fn gen_cfg(prop: &str, seed: u64) -> RunCfg {
 /// arbitrary join argument derived from a path: not equivalence-preserving
 pub fn wild_join(q: &str, rng: &mut Rng, names: &[String]) -> String {
     let nm = names[rng.below(names.len())].clone();
-    match rng.below(12) {
+    match rng.below(14) {
+        12 => format!("/{}", q),
+        13 => format!("//{}/{}", nm, q.trim_start_matches('/')),
         0 => format!("{}/", q),
         1 => format!("{}/..", q),
         2 => format!("{}/../..", q),
@@ -859,11 +878,15 @@ pub fn hostile(q: &str, rng: &mut Rng, names: &[String]) -> String {
         };
     }
     let mut out = String::new();
-    match rng.below(5) {
+    match rng.below(9) {
         0 => {}
         1 => out.push('/'),
         2 => out.push_str("../../"),
         3 => out.push_str("/../"),
+        4 => out.push_str("//"),
+        5 => out.push_str("///"),
+        6 => out.push_str("/./"),
+        7 => out.push_str(&format!("//{}/../", nm(rng))),
         _ => out.push_str(&format!("{}/../", nm(rng))),
     }
     for (i, c) in comps.iter().enumerate() {
